@@ -8,12 +8,13 @@ open PP PP.Sexp PP.Settings
 
   cfg    ::= ((diagAll...) (diagFixed...) (diagWarn...) (compatAll...) (compatFixed...))      (strings)
   state  ::= (ws kw lit verbose packrat (cacheId cacheKind) parseSel lr (memoId memoKind)
-              ((name v)...) ((name v)...) ((ws copyDef fwdEmpty)...) ((ws copyDef fwdEmpty)...) gen)
+              ((name v)...) ((name v)...) ((ws copyDef fwdEmpty skip)...) ((ws copyDef fwdEmpty skip)...) gen)
   cacheKind ::= null | unbounded | (fifo n)        memoKind ::= dict | unbounded | (lru n)
   parseSel  ::= nocache | cache
   cmd    ::= enter | reenter | exit | exitcopy | restorelast | (setws s) | (setkw s) | (lit n) | (verbose b) | (packrat size force)
            | (lr cap force) | (disable) | (reset) | (diag name b) | (allwarn) | (compat name b)
-           | (compatassign name b) | (new) | (copy i) | (exprws i s b) | (wrap i) | (newfwd) | (fwdassign i j)          size/cap ::= None | int
+           | (compatassign name b) | (new) | (copy i) | (exprws i s b) | (wrap i) | (newfwd) | (fwdassign i j)
+           | (leavews i) | (ignorews i) | (newalt i)          size/cap ::= None | int
   err    ::= ok | RuntimeError | NotImplementedError | ValueError | AttributeError
 
   `settings-canon "<chars>"` ↦ `"<canonical set(chars)>"`
@@ -59,7 +60,8 @@ def flags? (x : Sexp) : Option Flags := do
 def exprs? (x : Sexp) : Option (List Expr) := do
   let xs ← x.list?
   xs.mapM fun
-    | .list [.str w, c, f] => do pure { ws := w.toList, copyDef := ← c.bool?, fwdEmpty := ← f.bool? }
+    | .list [.str w, c, f, k] => do
+        pure { ws := w.toList, copyDef := ← c.bool?, fwdEmpty := ← f.bool?, skip := ← k.bool? }
     | _ => none
 
 def state? : Sexp → Option State
@@ -96,6 +98,9 @@ def cmd? : Sexp → Option Cmd
   | .list [.atom "newfwd"] => some (.op .newFwd)
   | .list [.atom "fwdassign", i, j] => do pure (.op (.assignFwd (← i.nat?) (← j.nat?)))
   | .list [.atom "wrap", i] => do pure (.op (.wrapExpr (← i.nat?)))
+  | .list [.atom "leavews", i] => do pure (.op (.leaveWs (← i.nat?)))
+  | .list [.atom "ignorews", i] => do pure (.op (.ignoreWs (← i.nat?)))
+  | .list [.atom "newalt", i] => do pure (.op (.newAlt (← i.nat?)))
   | .list [.atom "exprws", i, .str s, b] => do pure (.op (.exprSetWs (← i.nat?) s (← b.bool?)))
   | _ => none
 
@@ -115,7 +120,7 @@ def ofParseSel : ParseSel → Sexp
 
 def ofFlags (fl : Flags) : Sexp := .list (fl.map fun p => .list [.str p.1, ofBool p.2])
 
-def ofExprs (es : List Expr) : Sexp := .list (es.map fun e => .list [ofChars e.ws, ofBool e.copyDef, ofBool e.fwdEmpty])
+def ofExprs (es : List Expr) : Sexp := .list (es.map fun e => .list [ofChars e.ws, ofBool e.copyDef, ofBool e.fwdEmpty, ofBool e.skip])
 
 def ofState (s : State) : Sexp :=
   .list [.str s.defaultWs, .str s.kwChars, ofNat s.litCls, ofBool s.verbose, ofBool s.packratEnabled,
